@@ -204,6 +204,9 @@ func Convert(value any, typ reflect.Type) (any, error) { //nolint: gocyclo
 			}
 			return result.Interface(), nil
 		} else if r, ok := value.(Range); ok {
+			if r.Len() > maxArrayRange {
+				return nil, conversionError("range too long", value, typ)
+			}
 			return r.AsArray(), nil
 		}
 		switch rv.Kind() {
